@@ -10,6 +10,45 @@ NOTE = ("Trusted: Lean 4.33 kernel; axioms propext / Classical.choice / Quot.sou
         "standards. CPython's re/str/int semantics are modelled, not verified.")
 
 CLAIMS = {
+    "C02": dict(
+        text="Lean 4 theorems for every country of a well-formed table and every BBAN fitting its structure "
+             "string (unbounded): from_bban returns country + fmt02(98 - numeric(bban+country)*100 mod 97) + bban "
+             "and it is accepted (`from_bban`); the digits lie in 02..98 (`range`); among all ASCII digit pairs "
+             "exactly the computed one is accepted (`unique`); 00/01/99 never are (`no_alias`). Instance facts on "
+             "the regenerated table by kernel evaluation; model tied to the code by correspondence over all 100 "
+             "pairs for BBANs of every country.",
+        design="7 (C02)",
+        technique="Lean 4 proof (modular arithmetic with omega on the numerify model) + regenerated table "
+                  "obligations + differential correspondence"),
+    "C04": dict(
+        text="Lean 4 theorem `accept_iff`: for EVERY text and both compliance modes the validated BIC "
+             "constructor (and validate(), is_valid) accepts exactly the ISO 9362 predicate of SV.Spec with the "
+             "country code in the given ISO 3166 list; instance obligation: the two compiled patterns of the live "
+             "bic.py are the expected ones (kernel evaluation); pycountry's code list is regenerated. "
+             "Correspondence: every position x wide alphabet, lengths 0..14, all 676 country codes, both modes.",
+        design="7 (C04)",
+        technique="Lean 4 proof (full-match of the pattern sub-language unfolded over 8/11 symbolic characters) "
+                  "+ regenerated pattern/country data + differential correspondence"),
+    "C05": dict(
+        text="Lean 4 theorems for every text: IBAN validation without national validation and BIC validation in "
+             "both modes never end in a non-library exception (the model has explicit crash outcomes at every "
+             "partial primitive), is_valid always returns a bool, constructor success <-> is_valid, and every "
+             "raised error class implies its defect predicate (unknown country / wrong length / structure / "
+             "mod-97) on the cleaned text. PARTIAL for validate_bban=True: totality of the national algorithms "
+             "on structure-conforming BBANs is not yet proved in Lean; that mode is covered by the correspondence "
+             "stream (outcome classes incl. foreign exceptions compared on malformed/Unicode inputs) only.",
+        design="7 (C05)",
+        technique="Lean 4 proof (decision-tree characterisation of the pipeline, error soundness by case "
+                  "analysis) + regenerated tables + differential correspondence on a malformed/Unicode stream"),
+    "C11": dict(
+        text="Lean 4 theorems: country code + check digits + BBAN = compact form for every compact text of "
+             "length >= 4; every component accessor equals the BBAN slice at the published position or is empty "
+             "(for every well-formed table); published fields are pairwise disjoint and in bounds (table_wf, "
+             "kernel-evaluated on the regenerated table); from_bban(country, bban) of an accepted IBAN returns "
+             "it (via C02 uniqueness); BIC parts concatenate to the compact form, branch empty iff 8 long.",
+        design="7 (C11)",
+        technique="Lean 4 proof (list slicing identities, C02 uniqueness) + regenerated position table "
+                  "obligations + differential correspondence on all countries"),
     "C01": dict(
         text="Lean 4 theorem `accept_iff`: for EVERY text (list of code points), every Unicode table and every "
              "country table satisfying decidable well-formedness facts, the validated constructor / validate() / "
